@@ -334,4 +334,299 @@ example : ∃ o, toyGood (.cons .cluster) .labels = .accepts o true :=
     [.filterStubs, .link, .filterClusters] .range .labels (by decide)
     ⟨.frameIdx, by decide, .labels, by decide, .labels, by decide, rfl⟩ (.cons .cluster)
 
+/-! ### the property is FALSE of the pinned tree: recorded witness
+
+`recordedPinnedRows` is the table as measured (harness/c20.py, 2026-09-30, pandas 3.0.6) on the
+unchanged pinned tree; `recordedRepairedRows` the one measured with repo-fixes/C20-*.patch applied.
+They are static records (the live table is regenerated and re-checked on every run in a standalone
+file); they show the closure check is neither vacuous nor trivially false on realistic tables and
+name the concrete failing programs: `subtract_drift` returns a `(frame, particle)` MultiIndex with
+both columns kept, which `link`, `link_partial`, `subtract_drift`, `compute_drift`, `imsd`,
+`cluster` reject; `filter_stubs`/`filter_clusters` return a `frame`-indexed table, which `cluster`
+rejects. -/
+
+def recordedPinnedRows : List (Stage × Layout × Outcome) := [
+  (.prod .link, .range, .accepts [.labels, .range] true),
+  (.prod .link, .labels, .accepts [.labels] true),
+  (.prod .link, .dupLabels, .accepts [.dupLabels] true),
+  (.prod .link, .frameIdx, .accepts [.otherNamed] true),
+  (.prod .link, .particleIdx, .accepts [.particleIdx] true),
+  (.prod .link, .otherNamed, .accepts [.otherNamed] true),
+  (.prod .link, .frameParticleMI, .rejects),
+  (.prod .link, .frameMI, .rejects),
+  (.prod .link, .particleMI, .accepts [.particleMI] true),
+  (.prod .link, .otherMI, .accepts [.otherMI] true),
+  (.prod .linkPartial, .range, .accepts [.labels, .range] true),
+  (.prod .linkPartial, .labels, .accepts [.labels] true),
+  (.prod .linkPartial, .dupLabels, .accepts [.dupLabels] true),
+  (.prod .linkPartial, .frameIdx, .accepts [.otherNamed] true),
+  (.prod .linkPartial, .particleIdx, .accepts [.particleIdx] true),
+  (.prod .linkPartial, .otherNamed, .accepts [.otherNamed] true),
+  (.prod .linkPartial, .frameParticleMI, .rejects),
+  (.prod .linkPartial, .frameMI, .rejects),
+  (.prod .linkPartial, .particleMI, .accepts [.particleMI] true),
+  (.prod .linkPartial, .otherMI, .accepts [.otherMI] true),
+  (.prod .filterStubs, .range, .accepts [.frameIdx] true),
+  (.prod .filterStubs, .labels, .accepts [.frameIdx] true),
+  (.prod .filterStubs, .dupLabels, .accepts [.frameIdx] true),
+  (.prod .filterStubs, .frameIdx, .accepts [.frameIdx] true),
+  (.prod .filterStubs, .particleIdx, .accepts [.frameIdx] true),
+  (.prod .filterStubs, .otherNamed, .accepts [.frameIdx] true),
+  (.prod .filterStubs, .frameParticleMI, .accepts [.frameIdx] true),
+  (.prod .filterStubs, .frameMI, .accepts [.frameIdx] true),
+  (.prod .filterStubs, .particleMI, .accepts [.frameIdx] true),
+  (.prod .filterStubs, .otherMI, .accepts [.frameIdx] true),
+  (.prod .filterClusters, .range, .accepts [.frameIdx] true),
+  (.prod .filterClusters, .labels, .accepts [.frameIdx] true),
+  (.prod .filterClusters, .dupLabels, .accepts [.frameIdx] true),
+  (.prod .filterClusters, .frameIdx, .accepts [.frameIdx] true),
+  (.prod .filterClusters, .particleIdx, .accepts [.frameIdx] true),
+  (.prod .filterClusters, .otherNamed, .accepts [.frameIdx] true),
+  (.prod .filterClusters, .frameParticleMI, .accepts [.frameIdx] true),
+  (.prod .filterClusters, .frameMI, .accepts [.frameIdx] true),
+  (.prod .filterClusters, .particleMI, .accepts [.frameIdx] true),
+  (.prod .filterClusters, .otherMI, .accepts [.frameIdx] true),
+  (.prod .subtractDrift, .range, .accepts [.frameParticleMI] true),
+  (.prod .subtractDrift, .labels, .accepts [.frameParticleMI] true),
+  (.prod .subtractDrift, .dupLabels, .accepts [.frameParticleMI] true),
+  (.prod .subtractDrift, .frameIdx, .accepts [.frameParticleMI] true),
+  (.prod .subtractDrift, .particleIdx, .accepts [.frameParticleMI] true),
+  (.prod .subtractDrift, .otherNamed, .accepts [.frameParticleMI] true),
+  (.prod .subtractDrift, .frameParticleMI, .rejects),
+  (.prod .subtractDrift, .frameMI, .rejects),
+  (.prod .subtractDrift, .particleMI, .rejects),
+  (.prod .subtractDrift, .otherMI, .accepts [.frameParticleMI] true),
+  (.cons .computeDrift, .range, .accepts [] true),
+  (.cons .computeDrift, .labels, .accepts [] true),
+  (.cons .computeDrift, .dupLabels, .accepts [] true),
+  (.cons .computeDrift, .frameIdx, .accepts [] true),
+  (.cons .computeDrift, .particleIdx, .accepts [] true),
+  (.cons .computeDrift, .otherNamed, .accepts [] true),
+  (.cons .computeDrift, .frameParticleMI, .rejects),
+  (.cons .computeDrift, .frameMI, .rejects),
+  (.cons .computeDrift, .particleMI, .rejects),
+  (.cons .computeDrift, .otherMI, .accepts [] true),
+  (.cons .msd, .range, .accepts [] true),
+  (.cons .msd, .labels, .accepts [] true),
+  (.cons .msd, .dupLabels, .accepts [] true),
+  (.cons .msd, .frameIdx, .accepts [] true),
+  (.cons .msd, .particleIdx, .accepts [] true),
+  (.cons .msd, .otherNamed, .accepts [] true),
+  (.cons .msd, .frameParticleMI, .accepts [] true),
+  (.cons .msd, .frameMI, .accepts [] true),
+  (.cons .msd, .particleMI, .accepts [] true),
+  (.cons .msd, .otherMI, .accepts [] true),
+  (.cons .imsd, .range, .accepts [] true),
+  (.cons .imsd, .labels, .accepts [] true),
+  (.cons .imsd, .dupLabels, .accepts [] true),
+  (.cons .imsd, .frameIdx, .accepts [] true),
+  (.cons .imsd, .particleIdx, .rejects),
+  (.cons .imsd, .otherNamed, .accepts [] true),
+  (.cons .imsd, .frameParticleMI, .rejects),
+  (.cons .imsd, .frameMI, .accepts [] true),
+  (.cons .imsd, .particleMI, .rejects),
+  (.cons .imsd, .otherMI, .accepts [] true),
+  (.cons .emsd, .range, .accepts [] true),
+  (.cons .emsd, .labels, .accepts [] true),
+  (.cons .emsd, .dupLabels, .accepts [] true),
+  (.cons .emsd, .frameIdx, .accepts [] true),
+  (.cons .emsd, .particleIdx, .accepts [] true),
+  (.cons .emsd, .otherNamed, .accepts [] true),
+  (.cons .emsd, .frameParticleMI, .accepts [] true),
+  (.cons .emsd, .frameMI, .accepts [] true),
+  (.cons .emsd, .particleMI, .accepts [] true),
+  (.cons .emsd, .otherMI, .accepts [] true),
+  (.cons .cluster, .range, .accepts [] true),
+  (.cons .cluster, .labels, .accepts [] true),
+  (.cons .cluster, .dupLabels, .accepts [] true),
+  (.cons .cluster, .frameIdx, .rejects),
+  (.cons .cluster, .particleIdx, .accepts [] true),
+  (.cons .cluster, .otherNamed, .accepts [] true),
+  (.cons .cluster, .frameParticleMI, .rejects),
+  (.cons .cluster, .frameMI, .rejects),
+  (.cons .cluster, .particleMI, .accepts [] true),
+  (.cons .cluster, .otherMI, .accepts [] true),
+  (.cons .proximity, .range, .accepts [] true),
+  (.cons .proximity, .labels, .accepts [] true),
+  (.cons .proximity, .dupLabels, .accepts [] true),
+  (.cons .proximity, .frameIdx, .accepts [] true),
+  (.cons .proximity, .particleIdx, .accepts [] true),
+  (.cons .proximity, .otherNamed, .accepts [] true),
+  (.cons .proximity, .frameParticleMI, .accepts [] true),
+  (.cons .proximity, .frameMI, .accepts [] true),
+  (.cons .proximity, .particleMI, .accepts [] true),
+  (.cons .proximity, .otherMI, .accepts [] true),
+  (.cons .relateFrames, .range, .accepts [] true),
+  (.cons .relateFrames, .labels, .accepts [] true),
+  (.cons .relateFrames, .dupLabels, .accepts [] true),
+  (.cons .relateFrames, .frameIdx, .accepts [] true),
+  (.cons .relateFrames, .particleIdx, .accepts [] true),
+  (.cons .relateFrames, .otherNamed, .accepts [] true),
+  (.cons .relateFrames, .frameParticleMI, .accepts [] true),
+  (.cons .relateFrames, .frameMI, .accepts [] true),
+  (.cons .relateFrames, .particleMI, .accepts [] true),
+  (.cons .relateFrames, .otherMI, .accepts [] true)]
+
+def recordedRepairedRows : List (Stage × Layout × Outcome) := [
+  (.prod .link, .range, .accepts [.labels, .range] true),
+  (.prod .link, .labels, .accepts [.labels] true),
+  (.prod .link, .dupLabels, .accepts [.dupLabels] true),
+  (.prod .link, .frameIdx, .accepts [.otherNamed] true),
+  (.prod .link, .particleIdx, .accepts [.particleIdx] true),
+  (.prod .link, .otherNamed, .accepts [.otherNamed] true),
+  (.prod .link, .frameParticleMI, .rejects),
+  (.prod .link, .frameMI, .rejects),
+  (.prod .link, .particleMI, .accepts [.particleMI] true),
+  (.prod .link, .otherMI, .accepts [.otherMI] true),
+  (.prod .linkPartial, .range, .accepts [.labels, .range] true),
+  (.prod .linkPartial, .labels, .accepts [.labels] true),
+  (.prod .linkPartial, .dupLabels, .accepts [.dupLabels] true),
+  (.prod .linkPartial, .frameIdx, .accepts [.otherNamed] true),
+  (.prod .linkPartial, .particleIdx, .accepts [.particleIdx] true),
+  (.prod .linkPartial, .otherNamed, .accepts [.otherNamed] true),
+  (.prod .linkPartial, .frameParticleMI, .rejects),
+  (.prod .linkPartial, .frameMI, .rejects),
+  (.prod .linkPartial, .particleMI, .accepts [.particleMI] true),
+  (.prod .linkPartial, .otherMI, .accepts [.otherMI] true),
+  (.prod .filterStubs, .range, .accepts [.frameIdx] true),
+  (.prod .filterStubs, .labels, .accepts [.frameIdx] true),
+  (.prod .filterStubs, .dupLabels, .accepts [.frameIdx] true),
+  (.prod .filterStubs, .frameIdx, .accepts [.frameIdx] true),
+  (.prod .filterStubs, .particleIdx, .accepts [.frameIdx] true),
+  (.prod .filterStubs, .otherNamed, .accepts [.frameIdx] true),
+  (.prod .filterStubs, .frameParticleMI, .accepts [.frameIdx] true),
+  (.prod .filterStubs, .frameMI, .accepts [.frameIdx] true),
+  (.prod .filterStubs, .particleMI, .accepts [.frameIdx] true),
+  (.prod .filterStubs, .otherMI, .accepts [.frameIdx] true),
+  (.prod .filterClusters, .range, .accepts [.frameIdx] true),
+  (.prod .filterClusters, .labels, .accepts [.frameIdx] true),
+  (.prod .filterClusters, .dupLabels, .accepts [.frameIdx] true),
+  (.prod .filterClusters, .frameIdx, .accepts [.frameIdx] true),
+  (.prod .filterClusters, .particleIdx, .accepts [.frameIdx] true),
+  (.prod .filterClusters, .otherNamed, .accepts [.frameIdx] true),
+  (.prod .filterClusters, .frameParticleMI, .accepts [.frameIdx] true),
+  (.prod .filterClusters, .frameMI, .accepts [.frameIdx] true),
+  (.prod .filterClusters, .particleMI, .accepts [.frameIdx] true),
+  (.prod .filterClusters, .otherMI, .accepts [.frameIdx] true),
+  (.prod .subtractDrift, .range, .accepts [.frameIdx] true),
+  (.prod .subtractDrift, .labels, .accepts [.frameIdx] true),
+  (.prod .subtractDrift, .dupLabels, .accepts [.frameIdx] true),
+  (.prod .subtractDrift, .frameIdx, .accepts [.frameIdx] true),
+  (.prod .subtractDrift, .particleIdx, .accepts [.frameIdx] true),
+  (.prod .subtractDrift, .otherNamed, .accepts [.frameIdx] true),
+  (.prod .subtractDrift, .frameParticleMI, .rejects),
+  (.prod .subtractDrift, .frameMI, .rejects),
+  (.prod .subtractDrift, .particleMI, .rejects),
+  (.prod .subtractDrift, .otherMI, .accepts [.frameIdx] true),
+  (.cons .computeDrift, .range, .accepts [] true),
+  (.cons .computeDrift, .labels, .accepts [] true),
+  (.cons .computeDrift, .dupLabels, .accepts [] true),
+  (.cons .computeDrift, .frameIdx, .accepts [] true),
+  (.cons .computeDrift, .particleIdx, .accepts [] true),
+  (.cons .computeDrift, .otherNamed, .accepts [] true),
+  (.cons .computeDrift, .frameParticleMI, .rejects),
+  (.cons .computeDrift, .frameMI, .rejects),
+  (.cons .computeDrift, .particleMI, .rejects),
+  (.cons .computeDrift, .otherMI, .accepts [] true),
+  (.cons .msd, .range, .accepts [] true),
+  (.cons .msd, .labels, .accepts [] true),
+  (.cons .msd, .dupLabels, .accepts [] true),
+  (.cons .msd, .frameIdx, .accepts [] true),
+  (.cons .msd, .particleIdx, .accepts [] true),
+  (.cons .msd, .otherNamed, .accepts [] true),
+  (.cons .msd, .frameParticleMI, .accepts [] true),
+  (.cons .msd, .frameMI, .accepts [] true),
+  (.cons .msd, .particleMI, .accepts [] true),
+  (.cons .msd, .otherMI, .accepts [] true),
+  (.cons .imsd, .range, .accepts [] true),
+  (.cons .imsd, .labels, .accepts [] true),
+  (.cons .imsd, .dupLabels, .accepts [] true),
+  (.cons .imsd, .frameIdx, .accepts [] true),
+  (.cons .imsd, .particleIdx, .rejects),
+  (.cons .imsd, .otherNamed, .accepts [] true),
+  (.cons .imsd, .frameParticleMI, .rejects),
+  (.cons .imsd, .frameMI, .accepts [] true),
+  (.cons .imsd, .particleMI, .rejects),
+  (.cons .imsd, .otherMI, .accepts [] true),
+  (.cons .emsd, .range, .accepts [] true),
+  (.cons .emsd, .labels, .accepts [] true),
+  (.cons .emsd, .dupLabels, .accepts [] true),
+  (.cons .emsd, .frameIdx, .accepts [] true),
+  (.cons .emsd, .particleIdx, .accepts [] true),
+  (.cons .emsd, .otherNamed, .accepts [] true),
+  (.cons .emsd, .frameParticleMI, .accepts [] true),
+  (.cons .emsd, .frameMI, .accepts [] true),
+  (.cons .emsd, .particleMI, .accepts [] true),
+  (.cons .emsd, .otherMI, .accepts [] true),
+  (.cons .cluster, .range, .accepts [] true),
+  (.cons .cluster, .labels, .accepts [] true),
+  (.cons .cluster, .dupLabels, .accepts [] true),
+  (.cons .cluster, .frameIdx, .accepts [] true),
+  (.cons .cluster, .particleIdx, .accepts [] true),
+  (.cons .cluster, .otherNamed, .accepts [] true),
+  (.cons .cluster, .frameParticleMI, .accepts [] true),
+  (.cons .cluster, .frameMI, .accepts [] true),
+  (.cons .cluster, .particleMI, .accepts [] true),
+  (.cons .cluster, .otherMI, .accepts [] true),
+  (.cons .proximity, .range, .accepts [] true),
+  (.cons .proximity, .labels, .accepts [] true),
+  (.cons .proximity, .dupLabels, .accepts [] true),
+  (.cons .proximity, .frameIdx, .accepts [] true),
+  (.cons .proximity, .particleIdx, .accepts [] true),
+  (.cons .proximity, .otherNamed, .accepts [] true),
+  (.cons .proximity, .frameParticleMI, .accepts [] true),
+  (.cons .proximity, .frameMI, .accepts [] true),
+  (.cons .proximity, .particleMI, .accepts [] true),
+  (.cons .proximity, .otherMI, .accepts [] true),
+  (.cons .relateFrames, .range, .accepts [] true),
+  (.cons .relateFrames, .labels, .accepts [] true),
+  (.cons .relateFrames, .dupLabels, .accepts [] true),
+  (.cons .relateFrames, .frameIdx, .accepts [] true),
+  (.cons .relateFrames, .particleIdx, .accepts [] true),
+  (.cons .relateFrames, .otherNamed, .accepts [] true),
+  (.cons .relateFrames, .frameParticleMI, .accepts [] true),
+  (.cons .relateFrames, .frameMI, .accepts [] true),
+  (.cons .relateFrames, .particleMI, .accepts [] true),
+  (.cons .relateFrames, .otherMI, .accepts [] true)]
+
+def recordedInit : List Layout := [.range, .labels, .dupLabels, .frameIdx, .otherNamed]
+
+/-- the pairs excluded when the defects are kept as known findings -/
+def recordedExcl : Excl :=
+  [(.filterStubs, .cons .cluster), (.filterClusters, .cons .cluster),
+   (.subtractDrift, .prod .link), (.subtractDrift, .prod .linkPartial),
+   (.subtractDrift, .prod .subtractDrift), (.subtractDrift, .cons .computeDrift),
+   (.subtractDrift, .cons .imsd), (.subtractDrift, .cons .cluster)]
+
+/-- WITNESS (pinned tree): the closure property fails … -/
+theorem pinned_not_closed_witness :
+    tableClosed (tableOf recordedPinnedRows) recordedInit = false := by decide +kernel
+
+/-- … by the concrete program `subtract_drift ; compute_drift` on a plain table … -/
+theorem pinned_subtract_drift_witness :
+    .frameParticleMI ∈ outs (tableOf recordedPinnedRows) .subtractDrift .range ∧
+    tableOf recordedPinnedRows (.cons .computeDrift) .frameParticleMI = .rejects ∧
+    tableOf recordedPinnedRows (.prod .link) .frameParticleMI = .rejects := by decide +kernel
+
+/-- … and by `filter_stubs ; cluster`. -/
+theorem pinned_filter_cluster_witness :
+    .frameIdx ∈ outs (tableOf recordedPinnedRows) .filterStubs .range ∧
+    tableOf recordedPinnedRows (.cons .cluster) .frameIdx = .rejects := by decide +kernel
+
+/-- PARTIAL (pinned tree): every pipeline that avoids the eight excluded pairs is accepted. -/
+theorem pinned_closed_except_partial :
+    tableClosedExcept (tableOf recordedPinnedRows) recordedInit recordedExcl = true := by
+  decide +kernel
+
+/-- with the two repairs the full property holds of the recorded table -/
+theorem repaired_closed : tableClosed (tableOf recordedRepairedRows) recordedInit = true := by
+  decide +kernel
+
+/-- instantiation: on the repaired tree, after `filter_stubs ; subtract_drift ; link` every stage
+accepts the table with the same numbers (a pipeline of length 3; any length works the same way) -/
+example : ∀ s : Stage, ∃ o, tableOf recordedRepairedRows s .otherNamed = .accepts o true :=
+  fun s => closed_of_table _ recordedInit repaired_closed .range (by decide) .filterStubs
+    [.subtractDrift, .link] .frameIdx .otherNamed (by decide +kernel)
+    ⟨.frameIdx, by decide +kernel, .otherNamed, by decide +kernel, rfl⟩ s
+
 end TrackpyV.Pipeline
